@@ -80,6 +80,9 @@ type Settings struct {
 	IfaceMarshal string  `json:"iface_marshal,omitempty"` // "" default | stdjson | wrap
 	ClockSec     int64   `json:"clock_sec,omitempty"`
 	ClockNsec    int64   `json:"clock_nsec,omitempty"`
+	// LevelMarshal: "" default (Level.String) | upper | total (a total mapping in the style of syslog
+	// severities: every level, NoLevel and Disabled included, has a non-empty text of its own)
+	LevelMarshal string `json:"level_marshal,omitempty"`
 	// GlobalLow: 0 = global level Trace (the default); n > 0 = SetGlobalLevel(Level(-n)), which
 	// admits the custom verbose levels below Trace that log.go documents as legal
 	GlobalLow int `json:"global_low,omitempty"`
